@@ -265,6 +265,15 @@ func IdxAdd(off, i *Term) *Term {
 	if _, ok := intVal(off); ok {
 		return Add(off, i)
 	}
+	// sub-slices: off = base + lo. Address relative to the root offset, so
+	// that quantified facts about the parent slice match.
+	for off.Op == "+" && len(off.Args) == 2 && off.Sort == SInt {
+		if _, lit := intVal(off.Args[0]); lit {
+			break
+		}
+		i = Add(off.Args[1], i)
+		off = off.Args[0]
+	}
 	return mk("idx", SInt, off, i)
 }
 
